@@ -1276,6 +1276,18 @@ def mon_c18(case):
     later call nothing has been dropped twice, no list walk meets a freed node, every list is still a chain between its
     sentinels, every index entry points at a linked node through the key stored in it; the final drop drops nothing
     twice and leaves the poison of freed memory intact"""
+    if case["kind"] == 10:
+        # RawLRU under injection, model-comparable lines: the weak-audit code is the last number of the snapshot
+        for step, (op, out, cb, acct, snap) in enumerate(case["lines"], 1):
+            if not op or op[0] == 99:
+                if op and len(out) >= 6 and (out[2] or out[5]):
+                    return step, "the final drop dropped an object twice or freed memory was written to"
+                continue
+            if len(acct) >= 3 and acct[2]:
+                return step, f"call {op[:4]} dropped {acct[2]} key/value object(s) a second time"
+            if snap and snap[-1] != 0:
+                return step, f"after call {op[:12]}: {WEAK_CODES.get(snap[-1], snap[-1])}"
+        return None
     if case["kind"] < 100:
         return None
     faulted = None
